@@ -536,6 +536,11 @@ func stripOAIGen(opts *FlattenOpts) (bool, error) {
 			continue
 		}
 
+		if hasSelfParent(r) {
+			// a definition which refers to itself cannot be merged into its own $ref: keep the deduplicated name
+			continue
+		}
+
 		hasReplacedWithComplex, err := stripOAIGenForRef(opts, k, r)
 		if err != nil {
 			return replacedWithComplex, err
@@ -549,6 +554,17 @@ func stripOAIGen(opts *FlattenOpts) (bool, error) {
 	verifEmit("round.stripOAIGen", opts.Swagger())
 
 	return replacedWithComplex, nil
+}
+
+// hasSelfParent tells if a $ref to this definition is located inside the definition itself
+func hasSelfParent(r *newRef) bool {
+	for _, p := range r.parents {
+		if p == r.path || strings.HasPrefix(p, r.path+"/") {
+			return true
+		}
+	}
+
+	return false
 }
 
 // updateRefParents updates all parents of an updated $ref
